@@ -60,9 +60,13 @@ def _names_of(app, path_info):
     return ("collection", getattr(r, "relpath", "/"))
 
 
-def body_listing(name, depth1):
+MENU = ["a%41b.ics", "50%25 off.ics", "x%2Fy.ics", "a b.ics", "a#b", "q?x=1", "s;t.ics", "p+q.ics", "é.ics", "100%.ics",
+        "x%zz", "a:b.ics", "%", "~t.ics", "a&b=c.ics", "'q'.ics", "(1).ics", "%C3%A9.ics", "a%20b.ics"]
+
+
+def body_listing(name, depth1, check=True):
     prefix, wsgi = ctx.PART
-    if not name_ok(name) or name in ("z.ics", ".xandikos"):
+    if check and (not name_ok(name) or name in ("z.ics", ".xandikos")):
         return (True, "pre-invalid")
     mweb.fresh_world({name: b"xa", "z.ics": b"xz"}, {})
     app = mweb.make_app()
@@ -93,10 +97,10 @@ def h_listing(name: str, depth1: bool) -> bool:
     return run(body_listing, name, depth1)
 
 
-def body_multiget_href(name):
+def body_multiget_href(name, check=True):
     """An href as emitted by PROPFIND, sent back inside a multiget body, resolves to the same member."""
     prefix, wsgi = ctx.PART
-    if not name_ok(name) or name in ("z.ics", ".xandikos"):
+    if check and (not name_ok(name) or name in ("z.ics", ".xandikos")):
         return (True, "pre-invalid")
     mweb.fresh_world({name: b"xa", "z.ics": b"xz"}, {})
     app = mweb.make_app()
@@ -126,11 +130,11 @@ def h_multiget_href(name: str) -> bool:
     return run(body_multiget_href, name)
 
 
-def body_collection(cname):
+def body_collection(cname, check=True):
     """A collection created by MKCOL under a symbolic name is listed by its parent with a resolving href, and
     the Location of a POST add-member to it resolves to the new member."""
     prefix, wsgi = ctx.PART
-    if not name_ok(cname) or cname == "cal":
+    if check and (not name_ok(cname) or cname == "cal"):
         return (True, "pre-invalid")
     mweb.fresh_world({}, {})
     app = mweb.make_app()
@@ -160,6 +164,27 @@ def h_collection(cname: str) -> bool:
     return run(body_collection, cname)
 
 
+def body_menu(i, what):
+    """Rare-pattern names (percent + two hex digits, already-encoded look-alikes, reserved characters) chosen by
+    the solver from a menu: the same three obligations."""
+    name = MENU[i]
+    if what == 0:
+        r = body_listing(name, True, check=False)
+    elif what == 1:
+        r = body_multiget_href(name, check=False)
+    else:
+        r = body_collection(name, check=False)
+    return (r[0], ["listing", "multiget", "collection"][what])
+
+
+def h_menu(i: int, what: int) -> bool:
+    """
+    pre: 0 <= i < len(MENU) and 0 <= what <= 2
+    post: _
+    """
+    return run(body_menu, i, what)
+
+
 _B = {"quick": {"nlen": 2}, "thorough": {"nlen": 4}}
 _PARTS_Q = [("/", False), ("/dav/", False), ("/a/b/", True), ("/", True)]
 _PARTS_T = [(p, w) for p in PREFIXES for w in (False, True)]
@@ -180,6 +205,12 @@ HARNESSES = [
             budget={"quick": 90, "thorough": 600},
             describe="an emitted href sent back in a REPORT body (read_href_element + href_to_path) resolves to the "
                      "same resource as dereferencing it", encodes=_ENC),
+    Harness("menu", h_menu, body_menu, classes=[("listing", ("/", False)), ("collection", ("/dav/", True))],
+            parts={"quick": [("/", False), ("/dav/", True), ("/a/b/", False)], "thorough": _PARTS_T}, bounds=_B,
+            budget={"quick": 100, "thorough": 400},
+            describe="listing / multiget-href / MKCOL obligations for member names from a menu of rare patterns "
+                     "('%' + two hex digits, encoded look-alikes, reserved characters), index chosen by the solver",
+            encodes=_ENC),
     Harness("collection", h_collection, body_collection, classes=[("listed", ("/", False))],
             parts={"quick": [("/", False), ("/dav/", True)], "thorough": _PARTS_T}, bounds=_B,
             budget={"quick": 90, "thorough": 600},
